@@ -10,8 +10,8 @@ NOT_BUILT = "rules designed (DESIGN.md sections 3-4) but not built yet; not clai
 
 # property -> (technique, level text, level note, design ref)
 CLAIMED = {
- "C02": ("same-name agreement of the operator tables along the pipeline (ops.Op -> code operator -> interpreter case -> runtime function -> metamethod name; string-arithmetic metamethods) read from SSA, plus must-edge proofs that every integer divisor is excluded from zero",
-         "Pairing only: each operator reaches the runtime function and the metamethod name of that operator, and integer division by zero is an error path, not a Go panic. The values the arithmetic helpers compute over int64 x float64 — what the property is about — are value-level and not decided.",
+ "C02": ("same-name agreement of the operator tables along the pipeline (ops.Op -> code operator -> interpreter case -> runtime function -> metamethod name; string-arithmetic metamethods) read from SSA; arm-by-arm comparison of the type-dispatched arithmetic and comparison functions with a reference table (operand kinds, parameter order, result constructor, Go operator or helper); must-edge proofs that every integer divisor is excluded from zero",
+         "Pairing and shape only: each operator reaches the runtime function and the metamethod name of that operator; the six arithmetic functions and the three numeric comparisons have, per pair of operand kinds, the result kind and the Go operator or exact helper of the manual's table (integers stay int64 and wrap, any float makes a float, / is a float quotient, mixed comparisons go through the exact helpers); integer division by zero is an error path, not a Go panic. The values computed inside the helpers (floor division and modulo signs, exact mixed comparison, conversions, numerals, the math library) are value-level and not decided.",
          "Trusted: go/ssa; frozen operator tables. Not decided: every numeric result (wrap-around, floor division, mixed comparison, conversions, numerals, math library).",
          "DESIGN.md 10.2 (C02), 6"),
  "C19": ("the crash-and-runaway rules of C04/C05 restricted to findings located in lib/stringlib, lib/tablelib and luastrings: argument arity (dataflow over GoCont accessors), relative-bound proofs for normalised positions, sign and absolute-bound proofs for computed sizes, loop classification (metered / bounded / table-listed)",
